@@ -485,7 +485,7 @@ def check_all_classes(case):
 
 
 OBLIGATIONS = [
-    Obligation('history-machine', runner=run_machine, check=replay_history, quick=192, thorough=3200, max_shards=16, min_per_shard=2),
+    Obligation('history-machine', runner=run_machine, check=replay_history, quick=192, thorough=1600, max_shards=16, min_per_shard=2),
     Obligation('batch-independence', batch_case(), check_batch, quick=240, thorough=6000, min_per_shard=4),
     Obligation('mader-grid-resolution', mader_batch_case(), check_mader_batch, quick=100, thorough=3000),
     Obligation('all-classes-singleton-vs-batch', all_classes_case(), check_all_classes, quick=600, thorough=20000),
